@@ -2014,8 +2014,15 @@ def reuse_files_case(fmt, texts, workdir):
         if all(a[0] == 0 for a in alone):
             if comb[0] != 0:
                 return False, "every file decodes alone, the run over all files fails: %s" % comb[2][:200].decode("utf-8", "replace")
-            if comb[1] != b"".join(a[1] for a in alone):
-                return False, "output of the run over all files %r differs from the outputs of the files alone %r" % (comb[1][:200], b"".join(a[1] for a in alone)[:200])
+            # a run that reads no document at all prints one null: that is a rule of the run, not of a blank file
+            # (whether a blank text is a document of the format is asked of a fresh decoder in the harness: xml says null, json says none)
+            blank = [t for t in dict.fromkeys(texts) if t.strip() == ""]
+            hr = vlib.yqh_batch([{"op": "eval", "in": fmt, "out": "json", "indent": 0, "expr": ".", "input": t} for t in blank]) if blank else []
+            nodoc = {t for t, r in zip(blank, hr) if r is not None and not r.get("err") and vlib.b64d(r.get("out_b64", "")) == b""}
+            parts = [b"" if (t in nodoc and a[1] == b"null\n") else a[1] for t, a in zip(texts, alone)]
+            want = b"".join(parts) or (b"null\n" if any(a[1] == b"null\n" for a in alone) else b"")
+            if comb[1] != want:
+                return False, "output of the run over all files %r differs from the outputs of the files alone %r" % (comb[1][:200], want[:200])
             return True, ""
         if comb[0] == 0:
             return False, "a file fails alone but the run over all files succeeds"
